@@ -26,6 +26,8 @@ import (
 
 var props = map[string]*harness.Prop{}
 
+type linkT = simnet.Link
+
 func register(p *harness.Prop) {
 	if p.Variant == "" {
 		p.Variant = "B1"
